@@ -414,6 +414,8 @@ std::vector<Node> curated() {
     "{\xE2\x84\xAC(D1), \xE2\x84\xAC(X1\\D1)}\\{D{a\xE2\x88\x88\xE2\x84\xAC(D1) | 1=1}}",
     // calls of functions whose body root is rewritten by the normaliser (tuple pattern, enumerated declaration, chained call)
     "F5[S1]", "card(F5[S1])", "F7[S1]", "F5[S1]\xE2\x88\xAA" "F7[S1]=S1", "P2[S1]", "P2[F5[S1]]", "P3[D1]", "\xE2\x88\x80" "a\xE2\x88\x88S2 P3[a]", "F6[D1]", "F6[F6[D1]]\\D1", "D{a\xE2\x88\x88S2 | F6[a]=a & P3[a]}",
+    // a call of another function inside the SECOND argument of a two-parameter function (substitutes of earlier parameters must survive)
+    "F2[D2, F1[X1]]", "F2[D2, F1[D1]\xE2\x88\xAA" "D1]", "F2[D2, X1\\F1[D1]]", "D{c\xE2\x88\x88X1 | F2[c, F1[X1]]=X1}", "F2[D2, F6[X1]]",
     // the same local reused in sibling scopes
     "\xE2\x88\x80" "a\xE2\x88\x88X1 a\xE2\x88\x88" "D1 & \xE2\x88\x83" "a\xE2\x88\x88X1 a\xE2\x88\x88" "D1",
     "D{a\xE2\x88\x88X1 | a\xE2\x88\x88" "D1}\xE2\x88\xAA" "D{a\xE2\x88\x88X1 | a\xE2\x88\x89" "D1}",
